@@ -8,6 +8,16 @@ void GMGPolar::solve()
     LIKWID_START("Solve");
     auto start_solve = std::chrono::high_resolution_clock::now();
 
+    /* Statistics and run-time switches describe this solve only: forget what an earlier solve() left behind
+       (before the FMG start-up, whose cycles read full_grid_smoothing_ as well). */
+    residual_norms_.clear();
+    exact_errors_.clear();
+    /* Not available until residual norms of at least one iteration have been computed. */
+    mean_residual_reduction_factor_ = std::numeric_limits<double>::quiet_NaN();
+    if (extrapolation_ == ExtrapolationType::COMBINED) {
+        full_grid_smoothing_ = true;
+    }
+
     /* ---------------------------- */
     /* Initialize starting solution */
     /* ---------------------------- */
@@ -33,15 +43,6 @@ void GMGPolar::solve()
     Level& level          = levels_[start_level_depth];
 
     number_of_iterations_ = 0;
-
-    /* Statistics and run-time switches describe this solve only: forget what an earlier solve() left behind. */
-    residual_norms_.clear();
-    exact_errors_.clear();
-    /* Not available until residual norms of at least one iteration have been computed. */
-    mean_residual_reduction_factor_ = std::numeric_limits<double>::quiet_NaN();
-    if (extrapolation_ == ExtrapolationType::COMBINED) {
-        full_grid_smoothing_ = true;
-    }
 
     double initial_residual_norm;
     double current_residual_norm, current_relative_residual_norm;
